@@ -41,6 +41,7 @@ type Case struct {
 	NearMax  int          `json:"nearmax,omitempty"` // with Export: rewrite the serialised counter to 2^48-NearMax
 	Export2  bool         `json:"export2,omitempty"` // export/import the same side once more after the second phase (unmodified bytes), then a third phase
 	Close    bool         `json:"close,omitempty"`
+	Dual     string       `json:"dual,omitempty"` // "C"/"S": that side is dual-stack (1.2-1.3), the peer speaks only the version of Suite
 }
 
 func epsFor(c *Case) (cl, sv scen.EP) {
@@ -58,6 +59,26 @@ func epsFor(c *Case) (cl, sv scen.EP) {
 	}
 	cl.CID, sv.CID = c.CIDC, c.CIDS
 	cl.MTU, sv.MTU = c.MTU, c.MTU
+	if c.Dual != "" {
+		peerV := 12
+		if c.Suite>>8 == 0x13 {
+			peerV = 13
+		}
+		cl.MinVer, cl.MaxVer, sv.MinVer, sv.MaxVer = peerV, peerV, peerV, peerV
+		// an explicit suite list restricts the version range to the versions of its members, so the
+		// dual-stack side also lists one suite of the version that will not be chosen
+		other := uint16(0x1301)
+		if peerV == 13 {
+			other = 0xc02b
+		}
+		if c.Dual == "C" {
+			cl.MinVer, cl.MaxVer = 12, 13
+			cl.Suites = []uint16{c.Suite, other}
+		} else {
+			sv.MinVer, sv.MaxVer = 12, 13
+			sv.Suites = []uint16{c.Suite, other}
+		}
+	}
 
 	return cl, sv
 }
@@ -80,6 +101,9 @@ func run(c Case, r *pbt.R) {
 		p.Handshake(20 * time.Minute)
 		if !(p.C.OK() && p.S.OK()) {
 			r.Class("handshake-failed")
+			if c.Dual != "" {
+				r.Class("handshake-failed-dual-" + c.Dual)
+			}
 
 			return
 		}
@@ -320,6 +344,9 @@ func run(c Case, r *pbt.R) {
 			r.Class("cid")
 		}
 		r.Class(verName(is13))
+		if c.Dual != "" {
+			r.Class("dual-stack-" + c.Dual)
+		}
 		r.Class(scen.SuiteName(c.Suite))
 		if nt {
 			r.NonTrivial()
@@ -379,6 +406,7 @@ func gen(t *rapid.T) Case {
 		}
 	}
 	c.Close = rapid.Bool().Draw(t, "close")
+	c.Dual = rapid.SampledFrom([]string{"", "", "", "C", "C", "S"}).Draw(t, "dual")
 
 	return c
 }
